@@ -54,6 +54,7 @@ struct World {
 	Models *models = nullptr;     // model peers (sessions / forward scenarios)
 	std::function<bool(const J &)> op_hook;   // scenario-specific ops
 	size_t up_chunk = 0;          // largest upstream data chunk (decoded bytes) seen from a real client so far (for frames aligned with it)
+	std::map<std::string, uint16_t> first_id;                  // per real client: DNS id of its very first query
 	std::map<std::string, std::deque<uint16_t>> recent_ids;   // per real client: DNS ids of its latest queries (for spoofers that must not match)
 
 	virtual ~World() { for (auto m : owned) delete m; }
